@@ -107,85 +107,86 @@ def run(ctx):
                         ctx.where(B, bb), key='LOCK:' + inst)
 
     # ---- clause 3: per-path discipline in allocate ------------------------------------
+    # Evaluated path by path (allocate has no loop): on each path every variable has the value assigned on that path,
+    # so it does not matter whether the two cases build the pid separately or join before one constructor call.
     B = ctx.body(PA + '::allocate')
-    ctx.rule('C16.3-alloc-paths', 'allocate: one store to next_id per path; stored value is loaded id + 1 (or the reset together with a serial advance); returned pid carries the loaded id and the matching serial', floor=6)
+    ctx.rule('C16.3-alloc-paths', 'allocate, on every path that returns a pid: exactly one store to next_id; the stored value is the loaded id + 1, or the reset constant together with '
+             'one fetch_add on next_serial; the pid carries the loaded id and the serial of that path (loaded, or advanced on the wrap path)', floor=6)
+    ctx.rule('C16.5-creation', 'every pid / reference carries the creation read from the creation atomic', floor=3)
     if B is not None:
-        stores, loads, fadds, news = [], [], [], []
-        for bb, t in B.calls():
-            kind = is_atomic_call(t)
-            f = field_of_self(B, t['args'][0]) if (kind and t['args']) else None
-            if kind == 'store' and f == 'next_id':
-                stores.append((bb, t))
-            if kind == 'load' and f in ('next_id', 'next_serial'):
-                loads.append((bb, t, f))
-            if kind == 'fetch_add' and f == 'next_serial':
-                fadds.append((bb, t))
-            if is_call_to(t, 'erltf::types::ExternalPid::new'):
-                news.append((bb, t))
-        ctx.anchor(len(stores) >= 1 and len(news) >= 1 and any(f == 'next_id' for _, _, f in loads), PA + '::allocate:{load,store,ExternalPid::new}')
-        id_load = [bb for bb, t, f in loads if f == 'next_id']
-        # exactly one store on every path to each pid construction
-        for nb, nt in news:
-            through = [sb for sb, _ in stores]
-            # (a) every path entry -> construction passes a store
-            reach_wo = B.reachable(0, removed_blocks=through)
-            passes = nb not in reach_wo
-            # (b) no path passes two stores
-            twice = any(s2 in B.reachable(B.blocks[s1]['t']['t']) for s1, _ in stores for s2, _ in stores if B.blocks[s1]['t'].get('t') is not None)
-            which = [sb for sb, _ in stores if nb in B.reachable(sb)]
-            inst = 'pid-construction@%s-path' % ('wrap' if any(fold(B.origin(st['args'][1])) is not None for sb, st in stores if sb in which) else 'normal')
-            if passes and not twice and len(which) == 1:
-                ctx.ok('C16.3-alloc-paths', inst + ':one-store', 'exactly one next_id store precedes the construction', ctx.where(B, nb))
-            else:
-                ctx.bad('C16.3-alloc-paths', inst + ':one-store', 'paths to the construction pass %s stores (must be exactly one)' % ('no' if not passes else 'several'),
-                        ctx.where(B, nb), key='PATH:%s::allocate:%s:one-store' % (PA, inst))
-            if len(which) != 1:
+        from ..core import acyclic_paths, path_eval, expr_mentions
+        paths = acyclic_paths(B)
+        if not ctx.anchor(paths is not None and len(paths) >= 1, PA + '::allocate: loop-free paths'):
+            paths = []
+
+        def atomic(ev, kind, field):
+            bb, names, args, e = ev
+            t = B.blocks[bb]['t']
+            return is_atomic_call(t) == kind and args and _field_expr(args[0]) == field
+
+        def is_call_at(e, bbs):
+            return isinstance(e, tuple) and e and e[0] == 'call' and e[2] in bbs
+        n_pid_paths = 0
+        seen_kinds = {}
+        for path in paths:
+            env, events = path_eval(B, path)
+            news = [ev for ev in events if any(n == 'erltf::types::ExternalPid::new' for n in ev[1])]
+            if not news:
                 continue
-            sb = which[0]
-            st = [t for b, t in stores if b == sb][0]
-            val = B.origin(st['args'][1])
-            cval = fold(val)
-            id_arg = B.origin(nt['args'][1])
-            ser_arg = B.origin(nt['args'][2])
-            # returned id is the loaded id
-            id_ok = id_arg[0] == 'call' and id_arg[2] in id_load
-            if id_ok:
+            n_pid_paths += 1
+            stores = [ev for ev in events if atomic(ev, 'store', 'next_id')]
+            id_loads = [ev[0] for ev in events if atomic(ev, 'load', 'next_id')]
+            ser_loads = [ev[0] for ev in events if atomic(ev, 'load', 'next_serial')]
+            fadds = [ev[0] for ev in events if atomic(ev, 'fetch_add', 'next_serial')]
+            cre_loads = [ev[0] for ev in events if atomic(ev, 'load', 'creation')]
+            wrap = bool(stores) and stores[0][2][1][0] == 'const'
+            kind = 'wrap' if wrap else 'normal'
+            seen_kinds[kind] = seen_kinds.get(kind, 0) + 1
+            inst = 'pid-construction@%s-path%s' % (kind, '' if seen_kinds[kind] == 1 else '#%d' % seen_kinds[kind])
+            nb = news[0][0]
+            if len(stores) == 1 and len(news) == 1:
+                ctx.ok('C16.3-alloc-paths', inst + ':one-store', 'exactly one next_id store and one pid on this path', ctx.where(B, nb))
+            else:
+                ctx.bad('C16.3-alloc-paths', inst + ':one-store', 'this path performs %d stores to next_id and builds %d pids (must be exactly one each)' % (len(stores), len(news)),
+                        ctx.where(B, nb), key='PATH:%s::allocate:%s:one-store' % (PA, inst))
+                continue
+            _, _, nargs, _ = news[0]
+            id_arg, ser_arg, cr_arg = nargs[1], nargs[2], nargs[3]
+            if is_call_at(id_arg, id_loads):
                 ctx.ok('C16.3-alloc-paths', inst + ':id-prov', 'pid id is the value loaded from next_id', ctx.where(B, nb))
             else:
-                ctx.bad('C16.3-alloc-paths', inst + ':id-prov', 'pid id does not come from the next_id load: %s' % (id_arg,), ctx.where(B, nb),
+                ctx.bad('C16.3-alloc-paths', inst + ':id-prov', 'pid id does not come from the next_id load: %s' % _short(id_arg), ctx.where(B, nb),
                         key='PROV:%s::allocate:%s:id' % (PA, inst))
-            if cval is not None:
-                # wrap path: reset + serial advance, returned serial derives from the advanced one
-                fa = [fb for fb, _ in fadds if nb in B.reachable(fb)]
-                if fa and _derives_from_call(B, ser_arg, fa):
-                    ctx.ok('C16.3-alloc-paths', inst + ':serial', 'reset to %d together with fetch_add on next_serial; pid serial derives from the advanced serial' % cval, ctx.where(B, nb))
+            val = stores[0][2][1]
+            if wrap:
+                if len(fadds) == 1 and _wrapping_fn_of(ser_arg, fadds):
+                    ctx.ok('C16.3-alloc-paths', inst + ':serial', 'reset to %s together with one fetch_add on next_serial; pid serial derives from the advanced serial' % (val[1],), ctx.where(B, nb))
                 else:
-                    ctx.bad('C16.3-alloc-paths', inst + ':serial', 'wrap path: next_id reset without the returned serial deriving from an advance of next_serial',
+                    ctx.bad('C16.3-alloc-paths', inst + ':serial', 'wrap path: next_id reset with %d fetch_add(s) on next_serial and the returned serial %s' % (
+                        len(fadds), 'deriving from it only through a lossy conversion (%s): distinct counter values map to the same serial' % _short(ser_arg)
+                        if expr_mentions(ser_arg, lambda e: is_call_at(e, fadds)) else 'NOT deriving from the advanced serial (%s)' % _short(ser_arg)),
                             ctx.where(B, nb), key='PROV:%s::allocate:%s:serial' % (PA, inst))
             else:
-                # normal path: stored value = loaded id + 1
-                good = (val[0] == 'proj' and val[1][0] == 'bin' and val[1][1].startswith('Add')
-                        and _is_load_plus_one(val[1], id_load)) or (val[0] == 'bin' and val[1].startswith('Add') and _is_load_plus_one(val, id_load))
+                good = val[0] == 'bin' and val[1].startswith('Add') and is_call_at(val[2], id_loads) and val[3] == ('const', 1)
                 if good:
-                    ctx.ok('C16.3-alloc-paths', inst + ':store-value', 'stores loaded id + 1', ctx.where(B, sb))
+                    ctx.ok('C16.3-alloc-paths', inst + ':store-value', 'stores loaded id + 1', ctx.where(B, stores[0][0]))
                 else:
-                    ctx.bad('C16.3-alloc-paths', inst + ':store-value', 'stored next_id is not (loaded id + 1): %s' % (val,), ctx.where(B, sb),
+                    ctx.bad('C16.3-alloc-paths', inst + ':store-value', 'stored next_id is not (loaded id + 1): %s' % _short(val), ctx.where(B, stores[0][0]),
                             key='PROV:%s::allocate:%s:store-value' % (PA, inst))
-                ser_load = [bb for bb, t, f in loads if f == 'next_serial']
-                if _derives_from_call(B, ser_arg, ser_load):
-                    ctx.ok('C16.3-alloc-paths', inst + ':serial', 'pid serial derives from the next_serial load', ctx.where(B, nb))
+                if _wrapping_fn_of(ser_arg, ser_loads) and not fadds:
+                    ctx.ok('C16.3-alloc-paths', inst + ':serial', 'pid serial is the next_serial counter reduced modulo 2^32 (casts / remainder / constant offsets only)', ctx.where(B, nb))
                 else:
-                    ctx.bad('C16.3-alloc-paths', inst + ':serial', 'pid serial does not derive from next_serial', ctx.where(B, nb),
-                            key='PROV:%s::allocate:%s:serial' % (PA, inst))
-            # creation
-            cr = B.origin(nt['args'][3])
-            if cr[0] == 'call' and cr[1] and cr[1].endswith('::load') and field_of_self(B, B.blocks[cr[2]]['t']['args'][0]) == 'creation':
+                    ctx.bad('C16.3-alloc-paths', inst + ':serial', 'pid serial is not the next_serial counter modulo 2^32 (%s)%s%s' % (_short(ser_arg),
+                            ': it passes through a conversion that is not a wrap-around (saturating / fallible), so different counter values yield the same serial'
+                            if expr_mentions(ser_arg, lambda e: is_call_at(e, ser_loads)) else '',
+                            ', and the serial is advanced although the id did not wrap' if fadds else ''),
+                            ctx.where(B, nb), key='PROV:%s::allocate:%s:serial' % (PA, inst))
+            if is_call_at(cr_arg, cre_loads):
                 ctx.ok('C16.5-creation', inst, 'creation read from the creation atomic', ctx.where(B, nb))
             else:
-                ctx.bad('C16.5-creation', inst, 'pid creation does not come from self.creation: %s' % (cr,), ctx.where(B, nb),
+                ctx.bad('C16.5-creation', inst, 'pid creation does not come from self.creation: %s' % _short(cr_arg), ctx.where(B, nb),
                         key='PROV:%s::allocate:%s:creation' % (PA, inst))
-        # the wrap test compares the loaded id
-    ctx.rule('C16.5-creation', 'every pid / reference carries the creation read from the creation atomic', floor=3)
+        ctx.anchor(n_pid_paths >= 2 and set(seen_kinds) == {'wrap', 'normal'}, PA + '::allocate: a wrap path and a normal path that return a pid')
 
     # ---- clause 4: reference_counter discipline -----------------------------------------
     ctx.rule('C16.4-atomic-rmw', 'reference_counter is only touched through atomic read-modify-write (fetch_add); never load+store', floor=4)
@@ -256,6 +257,55 @@ def _vec_elems(B, op):
         if st['k'] == '=' and st['rv']['k'] == 'agg' and st['rv']['ak'] == 'array' and st['pl'].get('p'):
             return st['rv']['ops']
     return None
+
+
+def _field_expr(e):
+    """field of self an argument expression denotes (path_eval form): ('field', ('arg', 1), name)"""
+    while isinstance(e, tuple) and e and e[0] in ('cast',):
+        e = e[2]
+    if isinstance(e, tuple) and e and e[0] == 'field' and e[1] == ('arg', 1):
+        return e[2]
+    return None
+
+
+def _wrapping_fn_of(e, bbs, depth=0):
+    """is expression e the value returned by the call at one of `bbs`, passed only through wrap-around arithmetic
+    (integer casts, remainder / mask / offset by constants, wrapping_* methods)?  A saturating or fallible conversion
+    (try_from + unwrap_or, min, clamp, saturating_*) maps many counter values to one and does not qualify."""
+    if depth > 10 or not isinstance(e, tuple) or not e:
+        return False
+    if e[0] == 'call':
+        if e[2] in bbs:
+            return True
+        nm = str(e[1]).rsplit('::', 1)[-1]
+        if nm.startswith('wrapping_') and e[3]:
+            return _wrapping_fn_of(e[3][0], bbs, depth + 1)
+        return False
+    if e[0] == 'cast':
+        return _wrapping_fn_of(e[2], bbs, depth + 1)
+    if e[0] == 'bin' and e[1] in ('Rem', 'BitAnd', 'Add', 'AddUnchecked', 'Sub') and e[3][0] in ('const', 'bin', 'cast'):
+        return _wrapping_fn_of(e[2], bbs, depth + 1) and not expr_mentions_call(e[3])
+    return False
+
+
+def expr_mentions_call(e):
+    if isinstance(e, tuple) and e and e[0] == 'call':
+        return True
+    return isinstance(e, tuple) and any(expr_mentions_call(x) for x in e if isinstance(x, tuple))
+
+
+def _short(e, depth=0):
+    if not isinstance(e, tuple) or depth > 4:
+        return str(e)
+    if e[0] == 'call':
+        return '%s(..)@bb%d' % (str(e[1]).rsplit('::', 1)[-1], e[2])
+    if e[0] in ('bin',):
+        return '%s(%s, %s)' % (e[1], _short(e[2], depth + 1), _short(e[3], depth + 1))
+    if e[0] in ('cast', 'un'):
+        return '%s(%s)' % (e[1], _short(e[2], depth + 1))
+    if e[0] == 'field':
+        return '%s.%s' % (_short(e[1], depth + 1), e[2])
+    return str(e)
 
 
 def _is_load_plus_one(binv, load_bbs):
